@@ -26,6 +26,7 @@ from common import Scratch, base_env
 import c05  # shapes, faults and the tree builder (pure data and helpers; importing runs nothing)
 
 MODES = [("files", []), ("check", ["--check"]), ("stdout", ["--emit", "stdout"]), ("json", ["--emit", "json"])]
+THOROUGH = (os.environ.get("VERIF_TIER") or (sys.argv[1] if len(sys.argv) > 1 else "quick")) == "thorough"
 BANNERS = ("panicked at", "internal compiler error", "the compiler unexpectedly panicked", "stack backtrace", "RUST_BACKTRACE")
 
 
@@ -50,8 +51,8 @@ def run_case(sc, case):
     entries, extra, _outside, _needles = built
     problems = []
     n = 0
-    for mode, margs in MODES:
-        for arrangement in ("F", "H,F"):
+    for mode, margs in (MODES if THOROUGH else MODES[:2]):
+        for arrangement in (("F", "H,F") if THOROUGH else ("F",)):
             base = sc.path("w-" + common.sha(repr((case, mode, arrangement))))
             shutil.rmtree(base, ignore_errors=True)
             os.makedirs(os.path.join(base, "F"))
@@ -99,8 +100,8 @@ def main():
         "CLI half: every module-tree shape of C05's catalogue (root only, children, chains, #[path], cfg_if, inline "
         "grandchild, cfg_attr(path) candidates, ignored broken module) x every content fault (unterminated string / "
         "block comment, NUL byte, invalid UTF-8, unclosed delimiter, recoverable error, the parser-panic inputs of "
-        "tests/parser) at every file position x {files, --check, --emit stdout, --emit json} x {root alone, healthy root "
-        "first}: the binary exits by itself with status 0 or 1 and prints no panic banner. Non-trivial = the fault "
+        "tests/parser) at every file position x {files, --check} with the root alone (thorough: also --emit stdout, --emit json, and "
+        "a healthy root named first): the binary exits by itself with status 0 or 1 and prints no panic banner. Non-trivial = the fault "
         "sits in a file other than the root.",
         ["exit status and stderr of the real binary, fully controlled environment"],
     )
